@@ -116,7 +116,10 @@ pub fn run_batch_from(prop: &str, batch: &str, first: usize, n: usize, timeout: 
                 loop {
                     let _ = std::fs::remove_file(&progress);
                     let spec = format!("{}|{}|{}|{}|{}|{}", batch, shard, shards, start, n, progress);
-                    let mut cmd = Command::new(&exe);
+                    // the child runs under an address-space limit: a subject that never returns and keeps allocating (an
+                    // unbounded firing loop collecting its firings) must end as an aborted child, not exhaust the machine
+                    let mut cmd = Command::new("sh");
+                    cmd.arg("-c").arg("ulimit -v 3145728 2>/dev/null; exec \"$0\" \"$@\"").arg(&exe);
                     cmd.args([prop, "--child", &spec]).stdout(Stdio::null()).stderr(Stdio::null());
                     for (k, v) in extra_env {
                         cmd.env(k, v);
